@@ -36,6 +36,7 @@ def live_steps(proj, v, dl, mode):
     cwd = os.getcwd()
     os.chdir(proj)
     res = {}
+    per = None
     buf = io.StringIO()
     try:
         with contextlib.redirect_stdout(buf), contextlib.redirect_stderr(buf):
@@ -73,6 +74,12 @@ def live_steps(proj, v, dl, mode):
                                             stacks=set()))
                     res[ws]['stacks'].add('/'.join(p.getStack()))
     finally:
+        # the directory oracle keeps a read transaction on .bob-dev-dirs.sqlite3 open for the life of the process: close it,
+        # or the next real bob run in this project cannot update the mapping ("database is locked")
+        try:
+            if mode == 'dev': per._DevelopDirOracle__db.connection.close()
+        except Exception:
+            pass
         bob.state.finalize()
         os.chdir(cwd)
     return res
